@@ -3,7 +3,7 @@
 # verifies the sub-agent's deliverable, stores it under /verif/seeded/<ID><x>/ and runs the checks against it
 set -u
 ID=$1; X=$2; PROPS=${3:-$ID}; TIER=${4:-quick}
-SRC=/tmp/wt/$ID.out/$X; DST=/verif/seeded/$ID$X
+SRC=${WT:-/tmp/wt}/$ID.out/$X; DST=/verif/seeded/$ID$X
 [ -d "$SRC" ] || { echo "no $SRC"; exit 3; }
 V=$(/verif/bin/seedverify.sh "$SRC" 2>&1); rv=$?
 echo "$V" | tail -4
